@@ -21,9 +21,6 @@ namespace Poster.Spec
 /-- a parser: consumes a prefix of the input, returns the value and the remaining bytes -/
 abbrev P (α : Type) := Bytes → Option (α × Bytes)
 
-/-- `check c` succeeds iff `c` holds -/
-def check (c : Bool) : Option Unit := if c then some () else none
-
 /-! ## §1.5 data representation -/
 
 /-- one byte -/
